@@ -288,6 +288,14 @@ impl C03 {
             if ok {
                 full_walk(ctx, &reg, 0, bi.tags(), &exp, end, "tags(fresh)");
             }
+            if ok && end == WalkEnd::Complete {
+                // M6b: count/last/nth/skip/step_by/size_hint agree with the next() sequence
+                let key = |t: &multiboot2_common::DynSizedStructure<multiboot2::TagHeader>| (t as *const _ as *const u8 as usize, core::mem::size_of_val(t));
+                crate::iterproto::check(ctx, "tags", &|| bi.tags(), &key, 4096, true);
+                if exp.iter().all(|t| t.word0 != 3 || t.size >= 16) {
+                    crate::iterproto::check(ctx, "module_tags", &|| bi.module_tags(), &|m: &multiboot2::ModuleTag| (m as *const _ as *const u8 as usize, core::mem::size_of_val(m)), 4096, true);
+                }
+            }
             // module iterator = the type-3 sub-sequence, by address
             self.modules(ctx, &reg, &bi, &exp, end);
             if histories {
@@ -299,7 +307,11 @@ impl C03 {
             let reg = Region::new(ctx.placement, area_bytes);
             let sl = reg.as_slice();
             let it = TagIter::new(sl);
-            full_walk(ctx, &reg, 0, it, &exp, end, "TagIter");
+            let ok = full_walk(ctx, &reg, 0, it, &exp, end, "TagIter");
+            if ok && end == WalkEnd::Complete {
+                let key = |t: &multiboot2_common::DynSizedStructure<multiboot2::TagHeader>| (t as *const _ as *const u8 as usize, core::mem::size_of_val(t));
+                crate::iterproto::check(ctx, "TagIter", &|| TagIter::new(sl), &key, 4096, true);
+            }
             self.note(ctx, &exp, end, area_bytes, label);
         }
     }
